@@ -106,12 +106,41 @@ def replay_behaviour(sub, fmt, img, view, built, beh, c, align_units, sectors_ap
     return True
 
 
-def direction_A(ctx, thorough):
-    rng = random.Random(ctx.seed + 808)
+def behaviours(ctx, thorough):
     behs = {}
     for size, cfgs in SIM_CFGS.items():
         for cfg, S, A in cfgs:
             behs[(size, A)] = simulate(ctx, cfg, 40 if thorough else 12, 40 if thorough else 24, ctx.seed * 31 + A + size)
+    return behs
+
+
+def compressed_boundary(ctx, behs, thorough):
+    """TLC behaviours on stream-optimised VMDKs whose compressed grain records have every size around the 512-byte sector
+    boundary (the reader decides from the record size whether to fetch continuation sectors), buffer = 1/2, 1, 2 grains."""
+    from harness import patterns
+    c02 = importlib.import_module("props.c02")
+    rng = random.Random(ctx.seed + 909)
+    items = list(c02.boundary_images(rng, list(range(498, 530)) if thorough else list(range(503, 521)), ncells=6))
+
+    def work(sub, chunk, idx):
+        for total, lba, vf, exp, noise, ents in chunk:
+            gb = 4096
+            view = [{"k": k if k == "D" else "Z", "f": 0, "c": q} for k, q in ents]
+            b = disk.Built(open=lambda vf=vf: c02._open_vmdk(vf), cell=gb, size=len(exp), bases={0: 0},
+                           note={"variant": "stream", "record_bytes": total, "embedded_lba": lba},
+                           tok_bytes=lambda tok, a, n, noise=noise: patterns.npat(tok["c"], noise[tok["c"]], a, n) if tok["k"] == "D" else None)
+            for A in (2, 4, 8):
+                for beh in behs[(6, A)][: (None if thorough else 4)]:
+                    ok = replay_behaviour(sub, "vmdk", {"stream_record_bytes": total, "lba": lba}, view, b, beh, gb // 2, A, c02._sectors)
+                    sub.extra["behaviours_replayed"] = sub.extra.get("behaviours_replayed", 0) + 1
+                    if not ok:
+                        break
+
+    core.parallel(ctx, work, items)
+
+
+def direction_A(ctx, behs, thorough):
+    rng = random.Random(ctx.seed + 808)
     work_items = []
     for fmt, (pm, module, cfg, prof, cells) in FORMATS.items():
         sts = [s for s in diskprop.dump_states(ctx, module, cfg) if _size_of(s["img"]) == cells and not s["img"].get("parent")
@@ -165,10 +194,23 @@ def direction_B(ctx, thorough):
     for al in ALIGNS:
         tid += 1
         plan.append((tid, "storage", al, False))
+    # layer chains (VHDX partially-present blocks with per-sector bitmaps, QCOW2 sub-cluster bitmaps, VDI parents): the
+    # buffered layer's aligned offsets then start at every bit position of the bitmap bytes
+    c07 = importlib.import_module("props.c07")
+    chain_makers = {"chain-vhdx": c07.trace_vhdx_chain, "chain-qcow2": c07.trace_qcow2_chain, "chain-vdi": c07.trace_vdi_chain}
+    for fmt, als in (("chain-vhdx", [512, 1536, 2560, 4096, 65536]), ("chain-qcow2", [512, 4096, 65536]), ("chain-vdi", [512, 8192])):
+        for al in als:
+            for rep in range(3 if thorough else 1):
+                tid += 1
+                plan.append((tid, fmt, al, False))
     byid = {t[0]: t for t in plan}
 
     def mk(tid, rng):
         _, fmt, al, many = byid[tid]
+        if fmt in chain_makers:
+            t = chain_makers[fmt](tid, rng, 60 if thorough else 40, align=al)
+            t["align"], t["many"] = al, False
+            return t
         if fmt == "storage":
             t = c10.make_trace_hdd(tid, rng, 60 if thorough else 30, align=al)
             t["align"], t["many"] = al, False
@@ -182,7 +224,7 @@ def direction_B(ctx, thorough):
         return t
 
     return diskprop.traces(ctx, "stream", mk, len(plan), "TraceDisk", "TraceDisk.cfg",
-                           lambda t: {"format": t["fmt"], "align": t.get("align"), "many": t.get("many"), "mode": "B"},
+                           lambda t: {"format": t.get("kind", t["fmt"]) + ("-chain" if t["fmt"] == "chain" else ""), "align": t.get("align"), "many": t.get("many"), "mode": "B"},
                            label="histories x buffer sizes x cache overflow")
 
 
@@ -292,7 +334,9 @@ def run(ctx):
     try:
         for cfg in (["Stream_small", "Stream_b", "Stream_c"] if thorough else ["Stream_small", "Stream_c"]):
             diskprop.tlc_check(ctx, "Stream", cfg + ".cfg", min_states=1000, need_actions=("Next",))
-        direction_A(ctx, thorough)
+        behs = behaviours(ctx, thorough)
+        direction_A(ctx, behs, thorough)
+        compressed_boundary(ctx, behs, thorough)
         backend_contract(ctx, thorough)
         direction_B(ctx, thorough)
         vhdx_bat_cache_overflow(ctx, thorough)
